@@ -105,6 +105,54 @@ fn configs(rng: &mut Rng) -> J {
     json!({"stLsp": {"format": f}})
 }
 
+/// Statement lists composed of lines the individual formatting passes treat differently: long comma lists (wrapped when a
+/// line-length limit is configured), assignments with operators in different columns (aligned), and - next to them, at the
+/// same indentation - comments, pragmas and string literals that contain `:=` / `=>` / `:` and must come through verbatim.
+fn composed(rng: &mut Rng) -> String {
+    const LINES: [&str; 16] = [
+        "averyveryverylongname := a + total;",
+        "a := 1;",
+        "total := total + a;",
+        "// total := 0; commented out",
+        "// fb(in1 := a, out1 => total);",
+        "(* a := 2; *)",
+        "s := 'k:=v';",
+        "Log('k:=v', 'x => y');",
+        "{attribute 'x' := 'y'}",
+        "foo(aaaaaaaaaa, bbbbbbbbbbbb, ccccccccccc, dddddddddd, eeeeeeeeee);",
+        "total := bar(a, total, averyveryverylongname, a + 1, total * 2, a, a);",
+        "fb(in1 := a, in2 := total, out1 => averyveryverylongname);",
+        "s := 'text, with, commas, inside, a, long, string, literal';",
+        "a := 2; // then total := a;",
+        "x := 1; (* y := 2, z := 3 *)",
+        "",
+    ];
+    let mut out = String::from("PROGRAM P\nVAR\n  a : INT;\n  total : INT; // t : INT := 5;\n  averyveryverylongname : INT := 3;\n  s : STRING := 'a:b';\nEND_VAR\n");
+    let n = 6 + rng.usize(18);
+    let mut depth = 0usize;
+    for _ in 0..n {
+        match rng.below(12) {
+            0 if depth < 2 => {
+                out += "IF a > 0 THEN\n";
+                depth += 1;
+            }
+            1 if depth > 0 => {
+                out += "END_IF;\n";
+                depth -= 1;
+            }
+            _ => {
+                out += LINES[rng.usize(LINES.len())];
+                out.push('\n');
+            }
+        }
+    }
+    for _ in 0..depth {
+        out += "END_IF;\n";
+    }
+    out += "END_PROGRAM\n";
+    out
+}
+
 fn mutate(rng: &mut Rng, s: &str) -> String {
     let toks = lex(s);
     let mut parts: Vec<String> = toks.iter().map(|t| s[usize::from(t.range.start())..usize::from(t.range.end())].to_string()).collect();
@@ -320,8 +368,9 @@ pub fn run(sh: &mut Shard) {
         let (class, text) = match g.below(10) {
             0 | 1 => ("builtin", g.pick(&TEXTS).to_string()),
             2 | 3 => ("builtin-mutant", { let t = TEXTS[g.usize(TEXTS.len())]; mutate(&mut g, t) }),
-            4 if !corpus.is_empty() => ("corpus", corpus[g.usize(corpus.len())].1.clone()),
-            5 | 6 if !corpus.is_empty() => ("corpus-mutant", { let t = corpus[g.usize(corpus.len())].1.clone(); mutate(&mut g, &t) }),
+            4 => ("composed", composed(&mut g)),
+            5 if !corpus.is_empty() => ("corpus", corpus[g.usize(corpus.len())].1.clone()),
+            6 if !corpus.is_empty() => ("corpus-mutant", { let t = corpus[g.usize(corpus.len())].1.clone(); mutate(&mut g, &t) }),
             _ => {
                 let t = glue[glue_i % glue.len()].clone();
                 glue_i += nshards;
